@@ -565,6 +565,15 @@ class ApplyIdentity(Rule):
             inst = expr.match(e, identity.lhs)
             if inst is not None:
                 expected_rhs = identity.rhs.inst_pat(inst)
+                satisfied = True
+                for cond in (identity.conds.data if identity.conds is not None else []):
+                    cond = expr.expr_to_pattern(cond).inst_pat(inst)
+                    if cond.is_not_equals():
+                        satisfied = satisfied and ctx.get_conds().is_not_equal(cond.args[0], cond.args[1])
+                    else:
+                        satisfied = satisfied and ctx.get_conds().check_condition(cond)
+                if not satisfied:
+                    continue
                 if full_normalize(expected_rhs, ctx) == full_normalize(self.target, ctx):
                     if check_wellformed(self.target, ctx.get_conds()):
                         return self.target
